@@ -4,6 +4,8 @@ repository's source on every run (extract/main.go). Kept apart from C08.lean so 
 property theorems and these obligations can be maintained independently.
 -/
 import Uniflow.Generated.Lifecycle
+import Uniflow.Generated.TableFacts
+import Uniflow.Props.C01Tie
 
 /-! ## Call order of `(*Table).load` / `unload` tied to the source
 
@@ -17,3 +19,77 @@ theorem C08.lifecycle_calls_as_modelled :
     unloadDirection = "reverse" ∧
     unloadCalls = ["linked", "isActivated", "exec:node.PortTerm", "hooks:t.unloadHooks.Unload", "exec:node.PortFinal"] := by
   decide
+
+/-! ## Structure of `load` / `unload` / `linked` / `Close` / `exec` tied to the source
+
+`Generated/TableFacts.lean` (extract/table.go) lists, for every method of `*Table`, its `if`s
+(normalised condition, what the body does), loop headers, returns and free-standing branches. -/
+
+open Uniflow.Generated.TableFacts in
+/-- `load` / `unload` = model `loadLoop` / `unloadLoop`: walk `linked` forwards / backwards; for a
+symbol that `isActivated` (called with the symbol only – no cache is threaded through the pass):
+first flow, hooks, second flow, each error returned at once; nil at the end. -/
+theorem C08.load_unload_as_modelled :
+    of "load" =
+      [("loop", "range linked", ""),
+       ("if", "t.isActivated(sb)", "block:if"),
+       ("if", "err := t.exec(sb, node.PortInit); err != nil", "return err else"),
+       ("if", "err := t.loadHooks.Load(sb); err != nil", "return err else"),
+       ("if", "err := t.exec(sb, node.PortBegin); err != nil", "return err"),
+       ("return", "return nil", "")] ∧
+    of "unload" =
+      [("loop", "for i >= 0", "--"),
+       ("if", "t.isActivated(sb)", "block:if"),
+       ("if", "err := t.exec(sb, node.PortTerm); err != nil", "return err else"),
+       ("if", "err := t.unloadHooks.Unload(sb); err != nil", "return err else"),
+       ("if", "err := t.exec(sb, node.PortFinal); err != nil", "return err"),
+       ("return", "return nil", "")] ∧
+    sig "load" = some (["sb *Symbol"], ["error"]) ∧ sig "unload" = some (["sb *Symbol"], ["error"]) := by
+  decide
+
+open Uniflow.Generated.TableFacts in
+/-- `linked`, first pass = model `bfs`: pop; skip a visited symbol (the visited check is on the
+popped symbol only); for *every* live referrer of the popped symbol – visited or not – count
+`degree[next]++` and enqueue it (body `incdec, assign`, nothing skipped): the count the second
+pass consumes (`C08.deps_first` rests on "degree = number of entries naming the symbol"). -/
+theorem C08.linked_first_pass_as_modelled :
+    (of "linked").take 6 =
+      [("loop", "for len(queue) > 0", ""),
+       ("if", "_, ok := visited[curr]; ok", "continue"),
+       ("loop", "range t.references[curr.ID()]", ""),
+       ("loop", "range ports", ""),
+       ("if", "id == uuid.Nil", "id = t.lookup(curr.Namespace(), port.Name)"),
+       ("if", "next, ok := t.symbols[id]; ok", "block:incdec,assign")] := by
+  decide
+
+open Uniflow.Generated.TableFacts in
+/-- `Close`, the freeing loop = model `freeAll`: free the symbols in order and return the error of
+the first `free` that fails *from inside the loop* (`return err` with the `err` of that very
+`if`); nil only after the loop. -/
+theorem C08.close_returns_loop_error :
+    (of "Close").drop 13 =
+      [("loop", "range symbols", ""),
+       ("if", "_, err := t.free(sb.ID()); err != nil", "return err"),
+       ("return", "return nil", "")] ∧
+    sig "Close" = some ([], ["error"]) := by
+  decide
+
+open Uniflow.Generated.TableFacts in
+/-- `exec` = model `execTargets` / `exec`: link the temporary out-port to the in-port of every
+present same-namespace target of the phase port that has that in-port, send, and return the
+error payload of the joined answer (nil otherwise). -/
+theorem C08.exec_as_modelled :
+    of "exec" =
+      [("loop", "range ports[name]", ""),
+       ("if", "id == uuid.Nil", "id = t.lookup(sb.Namespace(), port.Name)"),
+       ("if", "ok && ref.Namespace() == sb.Namespace()", "block:if"),
+       ("if", "in := ref.In(port.Port); in != nil", "out.Link(in)"),
+       ("if", "err != nil", "return err"),
+       ("if", "v, ok := backPck.Payload().(types.Error); ok", "err = v.Unwrap()"),
+       ("return", "return err", "")] ∧
+    sig "exec" = some (["sb *Symbol", "name string"], ["error"]) := by
+  decide
+
+/-! ## `packet.Join` (lifecycle flows fanning out to several responders are joined by it) -/
+theorem C08.join_facts_as_modelled : type_of% C01.join_facts_as_modelled := C01.join_facts_as_modelled
+theorem C08.join_as_modelled : type_of% C01.join_as_modelled := C01.join_as_modelled
